@@ -101,6 +101,7 @@ func (n *node[T]) lockedMethodIndex() int {
 		l.RLock()
 		defer l.RUnlock()
 	}
+	n.root.vhook("node.methodIndex", false)
 	return n.methodIndex
 }
 
